@@ -150,13 +150,14 @@ def datetimeExists (z : ZoneOps) (w : Wall) : R Bool := do
 /-- `datetime_ambiguous(dt, tz)` for zones with an `is_ambiguous` that does not raise -/
 def datetimeAmbiguous (z : ZoneOps) (w : Wall) : R Bool := z.isAmbiguous w.wall
 
-/-- `resolve_imaginary(dt)`: `dt ± 24 h` are built with `datetime + timedelta`, which resets
-    fold to 0 -/
+/-- `resolve_imaginary(dt)` (after the D-C05g repair): the gap width is measured by a round trip through UTC,
+    `dt_rt = dt.astimezone(UTC).astimezone(dt.tzinfo)` — `dt.utcoffset()` with dt's own fold, then `fromutc` — and
+    `dt += abs(naive(dt_rt) - naive(dt))`; `datetime + timedelta` resets fold to 0 -/
 def resolveImaginary (z : ZoneOps) (w : Wall) : R Wall := do
   if ← datetimeExists z w then pure w else
-  let curr ← z.utcoffset { wall := w.wall + 86400, fold := false }
-  let old ← z.utcoffset { wall := w.wall - 86400, fold := false }
-  pure { wall := w.wall + (curr - old), fold := false }
+  let o ← z.utcoffset w
+  let rt ← z.fromutc (w.wall - o)
+  pure { wall := w.wall + Py.iabs (rt.wall - w.wall), fold := false }
 
 /-- `datetime_exists(dt, tz=None)` / `datetime_ambiguous(dt, tz=None)` with both arguments as the code
     takes them: `dtZone` = the zone attached to `dt` (`none` for a naive datetime), `tzArg` = the
